@@ -33,3 +33,6 @@ finally:
     subprocess.run(["git", "-C", "/repo", "worktree", "remove", "--force", wt])
     for p in props:
         shutil.rmtree("/verif/out/%s-%s-%s" % (p, tier, name), ignore_errors=True)
+    import glob
+    for f in glob.glob("/verif/harness/bin/*-" + name):
+        os.remove(f)
